@@ -39,7 +39,7 @@ SPEC = dict(
     level="exploration",
     level_text="Runtime monitor over real transports. (1) Two nng sockets in one process exchange seeded messages over inproc/ipc/tcp/ws/socket-fd while a link-time interposer clamps nng's own sendmsg/send/writev/readv calls (dribble, random chunks, one cut at every stream offset for small frames, injected EAGAIN); the receiver regenerates the expected header and body of the i-th message and demands equality, order and no extras. (2) One nng socket against a raw peer that the harness implements on a plain fd over tcp/ipc/socket-fd (either side listening) and ws: the peer does the SP handshake by hand, composes the byte stream of N well-formed frames itself and decides how it is cut into write() calls (all frames coalesced in one write, 1..7-byte dribble, random chunks with pauses, one cut inside a length prefix / SP header / body followed by a pause), and a strict framer checks every byte nng puts on the wire (ipc type octet, 8-byte length = header+body, the SP header the protocol is specified to emit, body, nothing after the last frame) - so an error nng makes symmetrically when sending and receiving cannot cancel out; for ws the peer is a raw RFC 6455 server that writes the 101 reply plus all frames (optionally fragmented, with PINGs) in one write so that frames sit behind the reply in nng's HTTP buffer, or a client sending masked frames. ASan/UBSan and the guarded message/aio hooks watch the resume paths. Sampled for large frames, exhaustive single-cut enumeration for small ones.",
     level_note="Trusts the interposer to model only transfers a kernel could legally produce (short counts, EAGAIN); kernel behaviours it cannot fake are out of reach. The raw-peer line covers one pipe per socket; it does not judge what nng's websocket layer sends (C16 does) and treats a failed SP / websocket handshake as a harness failure, not a violation.",
-    technique="runtime end-to-end integrity monitor (nng<->nng and nng<->raw SP peer with strict framer) + short-I/O fault injection + ASan/UBSan",
+    technique="runtime end-to-end integrity monitor (nng<->nng and nng<->raw SP peer with strict framer) + short-I/O fault injection + ASan/UBSan; valgrind memcheck (definedness of every value that steers a branch, an address or a system call) on a sample of the same workload (thorough tier)",
     rule="a case is (transport, protocol pair, cut plan, message list); messages have sizes from the boundary list {0,1,2,7,8,9,31,...,65537} or random; the cuts mode enumerates one cut at every absolute stream offset 1..120 (handshake + 3 small frames) on the send side and on the receive side for tcp/ipc/socket-fd x 5 protocol pairs (ws: offsets 130..430 for pair1 in quick, 1..700 for all pairs in thorough); sampled ws cases set NNG_OPT_WS_SENDMAXFRAME to {1,2,16,125,126,127,1000} on both ends so that messages are fragmented, and a third of the sampled cases use the aio forms of send/receive; lossy pairs (pub/sub, bus/bus, raw surveyor/raw respondent) go in lock-step; a class is (transport, pair, plan, which sides actually saw short transfers). A wire case is (transport in tcp/ipc/socket-fd/ws, who listens, protocol entry of the nng side in {pair0, pair1, pair1 raw, push, pull, pub, sub, bus, bus raw, req, rep, surveyor, respondent, raw req/rep/surveyor/respondent with 1..15 header words}, 3..24 messages, peer segmentation, interposer plan for nng); cooked req/rep/surveyor/respondent run in lock-step with backtraces of 1..7 words that the reply must carry back exactly; its class is (transport, entry, peer segmentation, nng plan, short transfers seen)",
     assumptions=["loopback kernel sockets", "interposed sendmsg/send/writev/readv are the only stream I/O calls of the posix platform layer"],
     quick=dict(runs=[R("c01_integrity", "asan", 8, 0, "cuts", 600),
@@ -50,7 +50,10 @@ SPEC = dict(
     thorough=dict(runs=[R("c01_integrity", "asan", 16, 0, "cuts", 3000),
                         R("c01_integrity", "asan", 16, 400, "sampled", 3000),
                         R("c01_integrity", "asan", 16, 300, "wire", 3000),
-                        R("c01_integrity", "tsan", 8, 60, "sampled", 3000)],
+                        R("c01_integrity", "tsan", 8, 60, "sampled", 3000),
+                        # valgrind memcheck lines: only memcheck reports are judged (see vf FLAVORS["vg"])
+                        R("c01_integrity", "vg", 8, 6, "sampled", 1800),
+                        R("c01_integrity", "vg", 8, 6, "wire", 1800)],
                   floor=_thorough_floor,
                   eval_key="verified"),
 )
